@@ -24,7 +24,7 @@ RULE = ("router sets: 1–4 routers × 0–4 registrations each over 4 names × 
 F15 = "F15-mem-rotation-livelock"
 ASSUMPTIONS = ["router sets on the in-memory broker; shared-queue scenarios also on the Redis and RabbitMQ brokers (in-process fake servers, assumption sets R, A: RabbitMQ requeues a rejected message at its original position)"]
 
-NAMES = ["a", "b", "c", "d"]
+NAMES = ["a", "ab", "b", "c"]     # one name a prefix of another: topics are compared whole
 QUEUES = ["q1", "q2", "q3"]
 
 
@@ -193,12 +193,14 @@ def shared_queue(kind: str, tl: int, rng: Rng, res: Result) -> None:
     from workrun import S
     n = rng.randint(3, 7)
     jobs = []
+    # the other worker's topic: unrelated, or sharing a prefix with the own one (either way round) — topics are whole names
+    other = rng.choice(["foreign", "act2", "act_more", "ac"])
     for i in range(n):
         own = rng.random() < 0.6 or i == n - 1
-        jobs.append({"id": f"{'o' if own else 'f'}{i}", "name": "act" if own else "foreign", "queue": "default", "retries": 0,
+        jobs.append({"id": f"{'o' if own else 'f'}{i}", "name": "act" if own else other, "queue": "default", "retries": 0,
                      "timeout": 10 * S, "plan": [{"k": "ret"}]})
     if layout_first_foreign := (rng.random() < 0.7):
-        jobs[0].update(id="f0", name="foreign")
+        jobs[0].update(id="f0", name=other)
     sc = {"jobs": jobs, "actors": {"act": "default"}, "converter": "basic", "policy": {"kind": "const", "us": 0},
           "tasks_limit": tl, "horizon_s": 8.0, "broker": kind}
     r = vtime.run(lambda loop, s=sc: c02.run_scenario(s), budget=40_000_000)
@@ -208,7 +210,8 @@ def shared_queue(kind: str, tl: int, rng: Rng, res: Result) -> None:
     places = r.msg_params()
     res.note(("shared-queue", kind, tl, tuple(j["name"] for j in jobs)))
     res.dist[f"shared-queue:{kind}:window{tl}"] += 1
-    case = {"label": f"shared-queue-{kind}", "tasks_limit": tl, "queue": [[j["id"], j["name"]] for j in jobs]}
+    res.dist[f"shared-queue:other-topic:{other}"] += 1
+    case = {"label": f"shared-queue-{kind}", "tasks_limit": tl, "other_topic": other, "queue": [[j["id"], j["name"]] for j in jobs]}
     if [x for x in executed if x in foreign_ids]:
         res.bad("impl", "a message of a topic the worker has no actor for was executed", case=case, observed=executed)
     if [x for x in own_ids if x not in executed]:
